@@ -46,7 +46,7 @@ func (cs dataCase) sample() map[string]any {
 }
 
 func init() {
-	for _, n := range []string{"access-paths", "unsupported", "not-modified", "fixed-shapes", "names"} {
+	for _, n := range []string{"access-paths", "unsupported", "not-modified", "fixed-shapes", "names", "deep-data"} {
 		harness.RegisterReplayer("C12/"+n, func(raw json.RawMessage) string {
 			cs, err := unJSON[dataCase](raw)
 			if err != nil {
